@@ -30,9 +30,12 @@ fn clean_null_fields(data: &Value) -> Value {
                     Value::Object(_) => {
                         // Recursively clean nested objects
                         let cleaned_inner = clean_null_fields(value);
-                        // Only include non-null objects that have remaining content
+                        // Only include non-null objects that have remaining content; an object that was
+                        // empty to begin with is content of its own (an empty block 3 / block 5 is written
+                        // as `{3:}` / `{5:}`), only one emptied by the cleaning is dropped
+                        let was_empty = value.as_object().is_some_and(|o| o.is_empty());
                         if !cleaned_inner.is_null()
-                            && !cleaned_inner.as_object().is_some_and(|o| o.is_empty())
+                            && (was_empty || !cleaned_inner.as_object().is_some_and(|o| o.is_empty()))
                         {
                             cleaned.insert(key.clone(), cleaned_inner);
                         }
